@@ -121,6 +121,30 @@ class SchedDeque(collections.deque):
         self.sched.yield_point("q.remove")
         return super().remove(x)
 
+    def __iter__(self):
+        # every step of an iteration over the shared queue is a point: another thread may append in between, and the
+        # real deque iterator then raises "deque mutated during iteration" exactly as it would in a free-running node
+        it = super().__iter__()
+        while True:
+            self.sched.yield_point("q.iter")
+            try:
+                item = next(it)
+            except StopIteration:
+                return
+            yield item
+
+    def __len__(self):
+        self.sched.yield_point("q.len")
+        return super().__len__()
+
+    def __getitem__(self, i):
+        self.sched.yield_point("q.getitem")
+        return super().__getitem__(i)
+
+    def __delitem__(self, i):
+        self.sched.yield_point("q.delitem")
+        return super().__delitem__(i)
+
 
 class SchedList(list):
     sched = None
@@ -206,7 +230,14 @@ class LinePoints:
 
     def __init__(self, sched, code_objects):
         self.sched = sched
-        self.codes = list(code_objects)
+        self.codes = []
+        todo = list(code_objects)
+        while todo:      # include nested code objects (generator expressions, comprehensions, lambdas, inner functions)
+            c = todo.pop()
+            if c in self.codes:
+                continue
+            self.codes.append(c)
+            todo.extend(k for k in c.co_consts if hasattr(k, "co_code"))
         self.mon = sys.monitoring
 
     def __enter__(self):
